@@ -1,8 +1,9 @@
 """C44 -- option updates are transactional, typed and survive a config round-trip.
 
 Monitor (model/history): a real mitmproxy.optmanager.OptManager with options of every supported type (bool, str, int,
-optional str/int, sequence of str; some added late) and 2-5 listeners (both .changed receivers and subscribe()d callbacks)
-that reject by rule is driven with a random history: update / attribute assignment / set-specs (with and without defer) /
+optional str/int, sequence of str; some added late), 2-5 listeners (both .changed receivers and subscribe()d callbacks)
+that reject by rule and 0-3 cascading listeners (subscribe()d callbacks that react to option A being set by a nested
+update of a derived option B := f(A), subscribed in random order before/after the rejecting ones) is driven with a random history: update / attribute assignment / set-specs (with and without defer) /
 update_defer / late add_option + process_deferred / reset / toggler / setter.  A model (vf/ref/c44_options.py) predicts for
 each operation whether it must be accepted or must raise and the values afterwards.  After every operation:
   outcome     accepted vs raised (and the error class) as predicted
@@ -27,12 +28,13 @@ PROPERTY = "C44"
 LEVEL = "exploration"
 BUDGET = {"quick": (1500, 14), "thorough": (100_000, 200)}
 WORKERS = {"quick": 2, "thorough": 16}
-REQUIRED = ["outcome", "values", "typed", "listeners", "roundtrip"]
+REQUIRED = ["outcome", "values", "typed", "listeners", "roundtrip", "rejected_after_cascade"]
 ENGINE = "direct"
 TECHNIQUE = "model-based history checking of the real OptManager plus save/load differential against the model"
 RULE = (
     "case = one random history of 5-40 operations on a fresh OptManager with 12 options of all six supported types (+4 added "
-    "late) and 2-5 rule-based rejecting listeners; values drawn from YAML-hostile strings (yes/no/null/~, numbers as strings, quotes, "
+    "late, +2 derived) with 2-5 rule-based rejecting listeners and 0-3 cascading listeners (nested update of a derived option) in random "
+    "subscription order; values drawn from YAML-hostile strings (yes/no/null/~, numbers as strings, quotes, "
     "': ', '#', leading/trailing blanks, newlines, tabs, NEL/LS/PS, astral, empty), wrong types, unknown names; distinct = (operation "
     "kinds, outcomes seen, string classes used, listener set) signature; non-trivial = the history contains at least one accepted "
     "multi-name update, one raising operation and one save/load round trip with a non-default hostile string"
@@ -259,6 +261,8 @@ def run_case(ctx, tmpdir):
                 derived.update(out[2])
             else:
                 expect_raise.add(out[0])
+                if out[0] == "OptionsError" and model.derived(kw):
+                    ctx.count("rejected_after_cascade")  # a listener derived another option before the update was rejected
             return out
 
         if op in ("update", "setattr", "toggle", "setter"):
